@@ -51,9 +51,25 @@ var chkTrans = harness.Define("crc-transitions",
 		return harness.Result{NonTrivial: true, Weight: 256}
 	})
 
+type bijCase struct{}
+
+var chkBij = harness.Define("crc-prefix-bijection",
+	func(t *rapid.T) bijCase { return bijCase{} },
+	func(bijCase) harness.Result {
+		var seen [65536]bool
+		for p := 0; p < 65536; p++ {
+			s := packet.CRC16([]byte{byte(p >> 8), byte(p)})
+			if seen[s] {
+				return harness.Fail("CRC16 over 2-byte prefixes is not a bijection onto the 16-bit states (state %#04x reached twice)", s)
+			}
+			seen[s] = true
+		}
+		return harness.Result{NonTrivial: true, Weight: 65536}
+	})
+
 func TestTransitionsExhaustive(t *testing.T) {
-	if got := packet.CRC16(nil); got != 0xFFFF {
-		t.Errorf("CRC16(empty)=%#04x want 0xFFFF", got)
+	if !chkStrings.Eval(t, strCase{}) {
+		return
 	}
 	lo, hi := harness.Range(65536)
 	for p := lo; p < hi; p++ {
@@ -63,14 +79,8 @@ func TestTransitionsExhaustive(t *testing.T) {
 	}
 	// every 16-bit state is reached by some 2-byte prefix: the 65536 values must be pairwise distinct.
 	// (cheap, so every shard does the whole thing)
-	var seen [65536]bool
-	for p := 0; p < 65536; p++ {
-		s := packet.CRC16([]byte{byte(p >> 8), byte(p)})
-		if seen[s] {
-			t.Errorf("CRC16 over 2-byte prefixes is not a bijection onto the 16-bit states (state %#04x reached twice)", s)
-			return
-		}
-		seen[s] = true
+	if !chkBij.Eval(t, bijCase{}) {
+		return
 	}
 	harness.Exhaustive("crc-transitions", "all 2^24 (16-bit state, next byte) transitions of the running CRC, observed through CRC16 on 3-byte strings", 1<<24)
 	harness.Note("crc-transitions extends to all lengths only under the structural assumption that CRC16 is a left fold of a per-byte step over a 16-bit state (packet/packet.go CRC16)")
@@ -94,6 +104,15 @@ var chkStrings = harness.Define("crc-strings",
 		return strCase{Data: gen.Payload(t, "data", n)}
 	},
 	func(c strCase) harness.Result {
+		if len(c.Data) == 0 {
+			// the byte string of length 0, however the caller spells it
+			buf := make([]byte, 8)
+			for name, in := range map[string][]byte{"nil": nil, "[]byte{}": {}, "buf[:0]": buf[:0], "buf[8:]": buf[8:]} {
+				if got := packet.CRC16(in); got != 0xFFFF {
+					return harness.Fail("CRC16 of the empty byte string given as %s = %#04x, want the initial value 0xFFFF", name, got)
+				}
+			}
+		}
 		got := packet.CRC16(c.Data)
 		if ref := spec.RefCRC16(c.Data); got != ref {
 			return harness.Fail("CRC16=%#04x table reference=%#04x", got, ref)
@@ -122,8 +141,8 @@ func lenClass(n int) string {
 
 func TestStrings(t *testing.T) {
 	// published check value
-	if got := packet.CRC16([]byte("123456789")); got != 0x4B37 {
-		t.Errorf("VIOLATION-FILE none\nCRC16(\"123456789\")=%#04x want 0x4B37", got)
+	if !chkStrings.Eval(t, strCase{Data: []byte("123456789")}) || !chkStrings.Eval(t, strCase{}) {
+		return
 	}
 	if spec.RefCRC16([]byte("123456789")) != 0x4B37 || spec.PolyCRC16([]byte("123456789")) != 0x4B37 {
 		t.Fatalf("reference implementations disagree with the published check value")
